@@ -37,6 +37,11 @@ func runC10(r *an.Run) {
 	if m := buildRunModel(r); m != nil {
 		everyParsedFileReachesApply(r, m, "R8-only-the-matcher-evaluates-the-guards")
 	}
+	// the guards of a change are evaluated against the tree the earlier changes of the run left behind.
+	// FileReplacer.Replace renames the package clause before it runs the node replacers, which are what can
+	// fail: a tree on which Replace failed carries a package clause the file never had, so once Replace
+	// fails the runner must give the file up — no later change may be guarded by, and written with, that state
+	c06MatchedFlagAs(r, "R9-guards-never-see-a-half-applied-change")
 }
 
 func c10GuardOrder(r *an.Run) {
